@@ -25,7 +25,7 @@ from .judge import judge
 
 TIERS = {
     "quick": dict(MaxN=4, MaxB=3, MaxOps=6),
-    "thorough": dict(MaxN=6, MaxB=4, MaxOps=9),
+    "thorough": dict(MaxN=5, MaxB=4, MaxOps=8),
 }
 FORMATS = [(1, 1), (2, 1), (2, 2), (4, 1), (1, 3), (4, 2), (2, 3)]
 
